@@ -26,6 +26,13 @@ BODIES = {
                     '"Invalid credentials.","cause":"UserMigratedException"}',
     'error-object-no-cause': '{"error":"Method Not Allowed",'
                              '"errorMessage":"GET is not allowed"}',
+    # complete error objects whose fields are empty strings (still error
+    # objects: both keys are there)
+    'error-object-empty-error': '{"error":"","errorMessage":"why",'
+                                '"cause":"UserMigratedException"}',
+    'error-object-empty-message': '{"error":"IllegalArgumentException",'
+                                  '"errorMessage":""}',
+    'error-object-both-empty': '{"error":"","errorMessage":"","cause":""}',
     'partial-error-object': '{"error":"OnlyError"}',
     'partial-error-object-2': '{"errorMessage":"only the message"}',
     'json-object-other': '{"foo":1}',
@@ -304,7 +311,7 @@ def check_step(op, step, rp, before, after, ret, exc, reqs, V, ob, YErr,
                       {'got': exc.status_code, 'want': code}))
             return
         body = BODIES[rp['body']]
-        if rp['body'] in ('error-object', 'error-object-no-cause'):
+        if rp['body'].startswith('error-object'):
             j = json.loads(body)
             if exc.yggdrasil_error != j['error'] or \
                     exc.yggdrasil_message != j['errorMessage'] or \
